@@ -287,8 +287,44 @@ func HarnessC01NoProject() {
 	verifOverride("os.ReadFile", verifC10ReadFile)
 	verifOverride("findProject", verifC10FindProject)
 	verifOverride("loadRepoConfig", verifC10RepoConfig)
-	l := &Linter{projects: NewProjects(), cwd: "/x", out: nil}
+	l := verifLinter("/x", "", "")
 	_, err := l.LintFiles([]string{"/x/a.yml", "/x/b.yml"}, nil)
 	verifCheck(err == nil, "lint-failed")
 	verifReach("returned")
+}
+
+// HarnessC01Config: the configuration channel. An actionlint.yaml whose
+// entries have unusual but legal YAML shapes (nothing, `~`, an alias of an
+// anchored null, an empty mapping / sequence, a scalar where a mapping is
+// expected) is decoded by ParseConfig; when it is accepted, it is used: path
+// configurations are looked up for a file and applied to a diagnostic, and the
+// rules that read the configuration run on a workflow. Never a panic.
+func HarnessC01Config() {
+	shapes := []string{"\n    ignore:\n      - x\n", "\n", " ~\n", " *nothing\n", " {}\n", " []\n", " text\n", "\n    ignore:\n", "\n    ignore: ~\n", "\n    ignore: [~]\n"}
+	sec := verifChoose("section", 3)
+	sh := shapes[verifChoose("shape", len(shapes))]
+	src := "self-hosted-runner:\n  labels:\n    - &nothing\n"
+	switch sec {
+	case 0:
+		src = "self-hosted-runner:\n  labels:\n    - lbl\nanchors: &nothing\npaths:\n  \"**/*.yml\":" + sh
+	case 1:
+		src = "anchors: &nothing\nself-hosted-runner:" + sh
+	case 2:
+		src = "anchors: &nothing\nconfig-variables:" + sh
+	}
+	cfg, err := ParseConfig([]byte(src))
+	verifReach("parsed")
+	if err != nil || cfg == nil {
+		return
+	}
+	verifReach("accepted")
+	l := verifLinter("", "", "")
+	errs := []*Error{{Message: "x marks", Line: 1, Column: 1, Kind: "k"}}
+	l.filterErrors(errs, cfg.PathConfigs("dir/w.yml"))
+	doc := verifParseYAML("on: push\njobs:\n  j:\n    runs-on: [self-hosted, lbl, other]\n    steps:\n      - run: echo ${{ vars.V }}\n")
+	rules := verifRulesNoDeprecated()
+	for _, r := range rules {
+		r.SetConfig(cfg)
+	}
+	verifLintNode(doc, rules)
 }
